@@ -378,6 +378,8 @@ func init() {
 		{Max: 2, Accept: 3, Complete: 4, Push: true},
 		{Max: 1, Accept: 0, Complete: 0, Push: false},
 		{Max: 2, Accept: 2, Complete: 0, Debounce: 1, Backoff: 2, Push: true},
+		// a short complete timeout alone: it can expire while a restart attempt is in flight within the depth bound
+		{Max: 2, Accept: 0, Complete: 2, Push: false},
 	}
 	for _, c := range quick {
 		c := c
